@@ -141,6 +141,7 @@ class Ctx:
         self._pending_res = None
         self._held_res = None
         self.algs = {}  # name -> (algorithm object, digest of its __dict__)
+        self.alg_specs = {}
         self.auto_defaults = [(o, self.alg_digest(o)) for o in world.AUTO_DEFAULTS]
         self.fired = Counter()
         self.samples = []
@@ -353,12 +354,21 @@ class Ctx:
                     return False
         return True
 
+    def ckey_arg(self, v):
+        if isinstance(v, dict) and "slot" in v and v["slot"] in self.pool:
+            rec = self.pool[v["slot"]].recipe
+            if rec.get("k") != "result" and not _has_result_ref(rec, self.pool):
+                return {"op": _expand(rec, self.pool)}
+        return v
+
     def ckey(self, step):
         """Key of a call in the result table: operands are identified by the VALUE they were built from (their
         ref-expanded recipe), not by the slot name, so that the same routine on a second, equal operator with the
         same key must return the same bits.  Operators manufactured by calls keep their slot identity."""
         def canon_arg(v):
             if isinstance(v, dict):
+                if "algobj" in v and v["algobj"] in self.alg_specs:
+                    return {"alg": self.alg_specs[v["algobj"]]}  # the object's construction (class + arguments), not its name
                 if "slot" in v and v["slot"] in self.pool:
                     rec = self.pool[v["slot"]].recipe
                     if rec.get("k") != "result" and not _has_result_ref(rec, self.pool):
@@ -706,6 +716,7 @@ class Ctx:
         kw = self.resolve_args(step.get("kw", {}))
         obj = _alg(step["cls"], kw)
         self.algs[name] = (obj, self.alg_digest(obj))
+        self.alg_specs[name] = {"cls": step["cls"], "kw": {k: self.ckey_arg(v) for k, v in step.get("kw", {}).items()}}
         self.stats["alg_objects_made"] += 1
         self.events.append(("mkalg", step["id"], step["cls"]))
         self.sched_sig.append("mkalg:" + step["cls"])
